@@ -29,7 +29,7 @@ Inductive outcome :=
 | OAnyOk | OAnySig.   (* wildcards used on the expected side when a dump was truncated *)
 
 (* the loop of the driver's `run` verb *)
-Fixpoint run_forms (n : nat) (fuel : nat) (st : state) (cursor : val) (line col : Z) : state * list outcome :=
+Fixpoint run_forms (cont : bool) (n : nat) (fuel : nat) (st : state) (cursor : val) (line col : Z) : state * list outcome :=
   match n with
   | O => (st, [OFuel])
   | S n' =>
@@ -44,9 +44,11 @@ Fixpoint run_forms (n : nat) (fuel : nat) (st : state) (cursor : val) (line col 
             match getv l, getv c with
             | VNum lz, VNum cz =>
               match eval_top fuel st1 form with
-              | (st2, ROk v) => let '(st3, os) := run_forms n' fuel st2 rest lz cz in (st3, OOk v :: os)
-              | (st2, RSig v) => (st2, [OSig v])
-              | (st2, RAbort) => (st2, [OAbort])
+              | (st2, ROk v) => let '(st3, os) := run_forms cont n' fuel st2 rest lz cz in (st3, OOk v :: os)
+              | (st2, RSig v) => if cont then let '(st3, os) := run_forms cont n' fuel st2 rest lz cz in (st3, OSig v :: os)
+                                 else (st2, [OSig v])
+              | (st2, RAbort) => if cont then let '(st3, os) := run_forms cont n' fuel st2 rest lz cz in (st3, OAbort :: os)
+                                 else (st2, [OAbort])
               | (st2, RPanic _) => (st2, [OPanic])
               | (st2, RFuel) => (st2, [OFuel])
               end
@@ -67,8 +69,9 @@ Fixpoint run_forms (n : nat) (fuel : nat) (st : state) (cursor : val) (line col 
     end
   end.
 
-Definition run_text (fuel : nat) (st : state) (t : text) : state * list outcome :=
-  run_forms (S (List.length t)) fuel (reset_polls st) (string_to_list t) 1 1.
+Definition run_text_cont (cont : bool) (fuel : nat) (st : state) (t : text) : state * list outcome :=
+  run_forms cont (S (List.length t)) fuel (reset_polls st) (string_to_list t) 1 1.
+Definition run_text (fuel : nat) (st : state) (t : text) : state * list outcome := run_text_cont false fuel st t.
 
 (* ---- comparison with what the implementation produced ---- *)
 (* values are compared structurally, metadata included (documentation and file paths are
